@@ -280,6 +280,7 @@ func (w *world) envActions() []sim.Action {
 		acts = append(acts, sim.Action{Key: "edit composition -> " + w.pool[i].id, Weight: 6, Run: func() { w.edit(i) }})
 	}
 	acts = append(acts, sim.Action{Key: "restore (strip owner references of revisions)", Weight: 3, Run: w.restore})
+	acts = append(acts, sim.Action{Key: "somebody prunes an old revision that only Manual XRs are pinned to", Weight: 1, Run: w.prune})
 	if !w.core.Dead {
 		for _, x := range w.xrs {
 			if w.inFetch[x] {
@@ -319,6 +320,47 @@ func (w *world) restore() {
 	}
 	w.restores++
 	w.S.Probe("restore")
+}
+
+// prune deletes a revision that is neither current nor the highest numbered
+// and that only XRs with the Manual policy reference: they stay pinned to it
+// (and report an error) rather than move.
+func (w *world) prune() {
+	st := w.Store
+	revs := revisions(st)
+	var max int64
+	for _, r := range revs {
+		if n := number(r); n > max {
+			max = n
+		}
+	}
+	pinned := map[string]bool{}
+	for _, x := range w.xrs {
+		m := st.Peek(simapi.ObjKey{Group: xrGVK.Group, Kind: xrGVK.Kind, Name: x})
+		if m == nil {
+			continue
+		}
+		pol, _, _ := unstructured.NestedString(m, "spec", "compositionUpdatePolicy")
+		ref, _, _ := unstructured.NestedString(m, "spec", "compositionRevisionRef", "name")
+		if ref == "" {
+			continue
+		}
+		if _, seen := pinned[ref]; !seen {
+			pinned[ref] = true
+		}
+		if pol != "Manual" {
+			pinned[ref] = false
+		}
+	}
+	for _, r := range revs {
+		if !pinned[r.GetName()] || number(r) == max || w.matches(r, w.pool[w.cur]) {
+			continue
+		}
+		if w.direct.Delete(context.Background(), r.DeepCopy()) == nil {
+			w.S.Probe("revision-pinned-by-a-manual-xr-pruned")
+		}
+		return
+	}
 }
 
 // startFetch runs the XR reconciler's revision selection for one XR.
